@@ -291,7 +291,8 @@ theorem constLoop_ok_of (sh : Shp) (src : Cls) (vals : List α) (l : List Cls)
 
 theorem repeatLoop_ok_of (sh : Shp) (vals : List α) (l : List Cls)
     (h : ∀ d ∈ l, basePresent sh d = true →
-      1 < mult sh d ∧ mult sh d < vals.length ∧ vals.length % mult sh d = 0) :
+      mult sh d = vals.length ∨
+        (1 < mult sh d ∧ mult sh d < vals.length ∧ vals.length % mult sh d = 0)) :
     ∃ res, repeatLoop sh vals l = .ok res := by
   induction l with
   | nil => exact ⟨none, rfl⟩
@@ -300,23 +301,24 @@ theorem repeatLoop_ok_of (sh : Shp) (vals : List α) (l : List Cls)
     unfold repeatLoop
     by_cases hb : basePresent sh x = true
     · simp only [hb, if_true]
-      obtain ⟨h1, h2, h3⟩ := h x List.mem_cons_self hb
-      have e1 : ¬ (mult sh x ≤ 1 ∨ mult sh x ≥ vals.length) := by omega
-      have e2 : ¬ (vals.length % mult sh x ≠ 0) := by simp [h3]
-      simp only [pyIsRepeating, e1, e2, if_false]
-      cases isRepeatingP (mult sh x) vals with
-      | true => exact ⟨_, rfl⟩
-      | false => exact ih'
+      rcases h x List.mem_cons_self hb with hdeg | ⟨h1, h2, h3⟩
+      · simp only [repeatHit, hdeg, if_true]
+        exact ⟨_, rfl⟩
+      · have e0 : ¬ (mult sh x = vals.length) := by omega
+        have e1 : ¬ (mult sh x ≤ 1 ∨ mult sh x ≥ vals.length) := by omega
+        have e2 : ¬ (vals.length % mult sh x ≠ 0) := by simp [h3]
+        simp only [repeatHit, e0, pyIsRepeating, e1, e2, if_false]
+        cases isRepeatingP (mult sh x) vals with
+        | true => exact ⟨_, rfl⟩
+        | false => exact ih'
     · simp only [hb]
       exact ih'
 
 
 
-/-- **the final `_simplify` of a merge never fails** on a valid global-slices key, when the time
-    axis (if present) has at least two points and the vector axis (if present) at least two
-    components -/
+/-- **the final `_simplify` of a merge never fails** on a valid global-slices key (with the F22
+    repair also when a present time / vector axis is singular) -/
 theorem simplify_gslices_ok (null : α) (sh : Shp) (wf : WF sh) (hsl : sh.hasSlice = true)
-    (ht : sh.hasTime = true → 2 ≤ sh.T) (hv : sh.hasVector = true → 2 ≤ sh.V)
     (vals : List α) (hl : vals.length = sh.S * sh.T * sh.V) :
     ∃ o, simplifyK null sh gslices vals = .ok o := by
   obtain ⟨hS, hT, hV⟩ := wf
@@ -362,31 +364,30 @@ theorem simplify_gslices_ok (null : α) (sh : Shp) (wf : WF sh) (hsl : sh.hasSli
       rcases hd' with rfl | rfl
       · -- time slices: period S
         have hbt : sh.hasTime = true := by simpa [basePresent] using hb
-        have hT2 := ht hbt
         have hm := hmiss tsamples (by simp [constTests]) (by simpa [basePresent] using hbt)
         have hS1 : sh.S ≠ 1 := by
           intro e; apply hm.1; rw [hpt, e]
         have hmt : mult sh tslices = sh.S := by simp [mult, hsl]
-        rw [hmt, hl]
-        refine ⟨by omega, ?_, ?_⟩
-        · have h2 : sh.S * 2 ≤ sh.S * (sh.T * sh.V) := by
-            apply Nat.mul_le_mul_left
-            calc 2 = 2 * 1 := rfl
-              _ ≤ sh.T * sh.V := Nat.mul_le_mul hT2 hV
-          rw [Nat.mul_assoc]; omega
-        · rw [Nat.mul_assoc]; exact Nat.mul_mod_right _ _
+        rw [hmt, hl, Nat.mul_assoc]
+        by_cases hTV : sh.T * sh.V = 1
+        · exact Or.inl (by rw [hTV, Nat.mul_one])
+        · refine Or.inr ⟨by omega, ?_, Nat.mul_mod_right _ _⟩
+          have hTVpos : 0 < sh.T * sh.V := Nat.mul_pos hT hV
+          have h2 : sh.S * 2 ≤ sh.S * (sh.T * sh.V) := Nat.mul_le_mul_left _ (by omega)
+          omega
       · -- vector slices: period S·T
         have hbv : sh.hasVector = true := by simpa [basePresent] using hb
-        have hV2 := hv hbv
         have hm := hmiss vsamples (by simp [constTests]) (by simpa [basePresent] using hbv)
         have hST1 : sh.S * sh.T ≠ 1 := by
           intro e; apply hm.1; rw [hpv, e]
         have hmt : mult sh vslices = sh.S * sh.T := by simp [mult, hsl]
         rw [hmt, hl]
         have hpos : 0 < sh.S * sh.T := Nat.mul_pos hS hT
-        refine ⟨by omega, ?_, Nat.mul_mod_right _ _⟩
-        have h2 : (sh.S * sh.T) * 2 ≤ (sh.S * sh.T) * sh.V := Nat.mul_le_mul_left _ hV2
-        omega
+        by_cases hV1 : sh.V = 1
+        · exact Or.inl (by rw [hV1, Nat.mul_one])
+        · refine Or.inr ⟨by omega, ?_, Nat.mul_mod_right _ _⟩
+          have h2 : (sh.S * sh.T) * 2 ≤ (sh.S * sh.T) * sh.V := Nat.mul_le_mul_left _ (by omega)
+          omega
     obtain ⟨r2, hr2⟩ := hrep
     rw [hr2]
     cases r2 with
@@ -397,7 +398,6 @@ theorem simplify_gslices_ok (null : α) (sh : Shp) (wf : WF sh) (hsl : sh.hasSli
 /-! ### the merges as a whole -/
 
 theorem applySimplify_ok (null : α) (sh : Shp) (wf : WF sh) (hsl : sh.hasSlice = true)
-    (ht : sh.hasTime = true → 2 ≤ sh.T) (hv : sh.hasVector = true → 2 ≤ sh.V)
     (r0 : KeyState α) (hv0 : ValidK sh r0) :
     ∃ r, (match r0 with
           | some (gslices, _) => applySimplify null sh r0
@@ -410,7 +410,7 @@ theorem applySimplify_ok (null : α) (sh : Shp) (wf : WF sh) (hsl : sh.hasSlice 
     · subst hg
       have hl : vals.length = sh.S * sh.T * sh.V := by
         have := hv0.2; simpa [mult, hsl] using this
-      obtain ⟨o, ho⟩ := simplify_gslices_ok null sh wf hsl ht hv vals hl
+      obtain ⟨o, ho⟩ := simplify_gslices_ok null sh wf hsl vals hl
       simp only [applySimplify, ho]
       cases o with
       | unchanged => exact ⟨_, rfl⟩
@@ -418,10 +418,8 @@ theorem applySimplify_ok (null : α) (sh : Shp) (wf : WF sh) (hsl : sh.hasSlice 
       | moved d out => exact ⟨_, rfl⟩
     · cases c <;> first | exact absurd rfl hg | exact ⟨_, rfl⟩
 
-/-- **merging along the slice axis cannot fail** for valid inputs of a consistent shape (vector axis,
-    if present, of length ≥ 2) -/
+/-- **merging along the slice axis cannot fail** for valid inputs of a consistent shape -/
 theorem mergeSliceK_ok (null : α) (sh1 : Shp) (hc1 : Consistent sh1)
-    (hv : sh1.hasVector = true → 2 ≤ sh1.V)
     (a : KeyState α) (rest : List (KeyState α))
     (hin : ∀ b, b ∈ a :: rest → ValidK { sh1 with S := 1 } b) :
     ∃ r, mergeSliceK null sh1 (a :: rest) = .ok r := by
@@ -438,20 +436,15 @@ theorem mergeSliceK_ok (null : α) (sh1 : Shp) (hc1 : Consistent sh1)
     (fun b hb => hin b (List.mem_cons_of_mem _ hb)) hf
   have wfn : WF { sh1 with S := 1 + rest.length } :=
     ⟨by simp; omega, hc1.hT, hc1.hV⟩
-  have ht : sh1.hasTime = true → 2 ≤ sh1.T := by
-    intro h
-    have := (hc1.htime.mp h).2
-    have := hc1.hT
-    omega
-  exact applySimplify_ok null _ wfn hc1.hsl ht hv r0 hv0
+  exact applySimplify_ok null _ wfn hc1.hsl r0 hv0
 
-/-- **merging 3-D volumes along time cannot fail** (at least two of them) -/
+/-- **merging 3-D volumes along time cannot fail** -/
 theorem mergeTimeK_ok (null : α) (sh1 osh : Shp)
     (hS : 0 < sh1.S) (hsl : sh1.hasSlice = true) (nd4 : sh1.nd = 4) (v1 : sh1.V = 1)
     (hvec : sh1.hasVector = false)
     (ond : osh.nd = 3) (oS : osh.S = sh1.S) (oT : osh.T = 1) (oV : osh.V = 1)
     (ohsl : osh.hasSlice = true)
-    (a : KeyState α) (rest : List (KeyState α)) (hrest : rest ≠ [])
+    (a : KeyState α) (rest : List (KeyState α))
     (hin : ∀ b, b ∈ a :: rest → ValidK osh b) :
     ∃ r, mergeTimeK null sh1 osh (a :: rest) = .ok r := by
   have setup : ∀ k, 0 < k → TimeSetup { sh1 with T := k } osh := fun k hk =>
@@ -494,20 +487,16 @@ theorem mergeTimeK_ok (null : α) (sh1 osh : Shp)
       exact ⟨h1, fun _ _ _ _ => rfl, fun _ _ => rfl⟩)
     rest 1 [a] a r0 (by omega) rfl hva (fun _ _ _ _ => rfl)
     (fun b hb => hin b (List.mem_cons_of_mem _ hb)) hf
-  have hlen : 2 ≤ 1 + rest.length := by
-    cases rest with
-    | nil => exact absurd rfl hrest
-    | cons _ _ => simp; omega
   have wfn : WF { sh1 with T := 1 + rest.length } := ⟨hS, by simp; omega, by rw [v1]; omega⟩
-  exact applySimplify_ok null _ wfn hsl (fun _ => hlen) (by simp [hvec]) r0 hv0
+  exact applySimplify_ok null _ wfn hsl r0 hv0
 
-/-- **merging volumes along the vector axis cannot fail** (at least two of them) -/
+/-- **merging volumes along the vector axis cannot fail** -/
 theorem mergeVecK_ok (null : α) (sh1 osh : Shp)
     (hS : 0 < sh1.S) (hT : 0 < sh1.T) (hsl : sh1.hasSlice = true) (nd5 : sh1.nd = 5)
     (hvec : sh1.hasVector = true) (htime : sh1.hasTime = true → sh1.T ≠ 1)
     (ohsl : osh.hasSlice = true) (oS : osh.S = sh1.S) (oT : osh.T = sh1.T) (oV : osh.V = 1)
     (ond : (osh.nd = 3 ∧ sh1.T = 1) ∨ (osh.nd = 4 ∧ sh1.T ≠ 1))
-    (a : KeyState α) (rest : List (KeyState α)) (hrest : rest ≠ [])
+    (a : KeyState α) (rest : List (KeyState α))
     (hin : ∀ b, b ∈ a :: rest → ValidK osh b) :
     ∃ r, mergeVecK null sh1 osh (a :: rest) = .ok r := by
   have setup : ∀ k, 0 < k → VecSetup { sh1 with V := k } osh := fun k hk =>
@@ -542,13 +531,8 @@ theorem mergeVecK_ok (null : α) (sh1 osh : Shp)
       exact ⟨h1, fun _ _ _ _ => rfl, fun _ _ => rfl⟩)
     rest 1 [a] a r0 (by omega) rfl hva (fun _ _ _ _ => rfl)
     (fun b hb => hin b (List.mem_cons_of_mem _ hb)) hf
-  have hlen : 2 ≤ 1 + rest.length := by
-    cases rest with
-    | nil => exact absurd rfl hrest
-    | cons _ _ => simp; omega
   have wfn : WF { sh1 with V := 1 + rest.length } := ⟨hS, hT, by simp; omega⟩
-  have ht2 : sh1.hasTime = true → 2 ≤ sh1.T := fun h => by have := htime h; omega
-  exact applySimplify_ok null _ wfn hsl ht2 (fun _ => hlen) r0 hv0
+  exact applySimplify_ok null _ wfn hsl r0 hv0
 
 /-- the result of a vector merge is a valid key state of the merged shape -/
 theorem mergeVec_valid (null : α) (sh1 osh : Shp)
@@ -666,7 +650,7 @@ theorem convert_total (null : α) (S T V : Nat) (hS : 0 < S) (hT : 2 ≤ T) (hV 
     obtain ⟨a, rest, hl, _⟩ := range_map_cons S hS (fun s => fileKS (val s t v))
     show ∃ r, mergeSliceK null _ ((List.range S).map fun s => fileKS (val s t v)) = .ok r
     rw [hl]
-    apply mergeSliceK_ok null _ consistent3 (by simp)
+    apply mergeSliceK_ok null _ consistent3
     intro b hb
     rw [← hl] at hb
     obtain ⟨s, _, rfl⟩ := List.mem_map.mp hb
@@ -690,7 +674,6 @@ theorem convert_total (null : α) (S T V : Nat) (hS : 0 < S) (hT : 2 ≤ T) (hV 
     rw [hl]
     apply mergeTimeK_ok null ⟨4, S, 1, 1, true, true, false⟩ ⟨3, S, 1, 1, true, false, false⟩
       hS rfl rfl rfl rfl rfl rfl rfl rfl rfl a rest
-    · intro h; rw [h] at hlen; simp at hlen; omega
     · intro b hb
       rw [← hl] at hb
       obtain ⟨t, _, rfl⟩ := List.mem_map.mp hb
@@ -714,7 +697,6 @@ theorem convert_total (null : α) (S T V : Nat) (hS : 0 < S) (hT : 2 ≤ T) (hV 
       hS (by show 0 < T; omega) rfl rfl rfl
       (fun _ => by show T ≠ 1; omega) rfl rfl rfl rfl
       (Or.inr ⟨rfl, by show T ≠ 1; omega⟩) a rest
-    · intro h; rw [h] at hlen; simp at hlen; omega
     · intro b hb
       rw [← hl] at hb
       obtain ⟨v, _, rfl⟩ := List.mem_map.mp hb
@@ -742,7 +724,7 @@ theorem convert_total_4d (null : α) (S T : Nat) (hS : 0 < S) (hT : 2 ≤ T)
     obtain ⟨a, rest, hl, _⟩ := range_map_cons S hS (fun s => fileKS (val s t))
     show ∃ r, mergeSliceK null _ ((List.range S).map fun s => fileKS (val s t)) = .ok r
     rw [hl]
-    apply mergeSliceK_ok null _ consistent3 (by simp)
+    apply mergeSliceK_ok null _ consistent3
     intro b hb
     rw [← hl] at hb
     obtain ⟨s, _, rfl⟩ := List.mem_map.mp hb
@@ -762,7 +744,6 @@ theorem convert_total_4d (null : α) (S T : Nat) (hS : 0 < S) (hT : 2 ≤ T)
     rw [hl]
     apply mergeTimeK_ok null ⟨4, S, 1, 1, true, true, false⟩ ⟨3, S, 1, 1, true, false, false⟩
       hS rfl rfl rfl rfl rfl rfl rfl rfl rfl a rest
-    · intro h; rw [h] at hlen; simp at hlen; omega
     · intro b hb
       rw [← hl] at hb
       obtain ⟨t, _, rfl⟩ := List.mem_map.mp hb
@@ -782,7 +763,7 @@ theorem convert_total_3d (null : α) (S : Nat) (hS : 0 < S) (val : Nat → Optio
       ((List.range S).map fun s => fileKS (val s)) = .ok r := by
     obtain ⟨a, rest, hl, _⟩ := range_map_cons S hS (fun s => fileKS (val s))
     rw [hl]
-    apply mergeSliceK_ok null _ consistent3 (by simp)
+    apply mergeSliceK_ok null _ consistent3
     intro b hb
     rw [← hl] at hb
     obtain ⟨s, _, rfl⟩ := List.mem_map.mp hb
@@ -845,17 +826,15 @@ end Total
 namespace Total
 variable {α : Type} [DecidableEq α]
 
-/-- **`_simplify` never fails on a valid key**, whatever its class, when a present time / vector axis
-    has at least two entries -/
+/-- **`_simplify` never fails on a valid key**, whatever its class -/
 theorem simplifyK_ok (null : α) (sh : Shp) (wf : WF sh) (hsl : sh.hasSlice = true)
-    (ht : sh.hasTime = true → 2 ≤ sh.T) (hv : sh.hasVector = true → 2 ≤ sh.V)
     (c : Cls) (vals : List α) (hl : vals.length = mult sh c) :
     ∃ o, simplifyK null sh c vals = .ok o := by
   obtain ⟨hS, hT, hV⟩ := wf
   cases c with
   | gconst => unfold simplifyK; simp
   | gslices =>
-    exact simplify_gslices_ok null sh ⟨hS, hT, hV⟩ hsl ht hv vals (by simpa [mult, hsl] using hl)
+    exact simplify_gslices_ok null sh ⟨hS, hT, hV⟩ hsl vals (by simpa [mult, hsl] using hl)
   | tslices =>
     have hconst : ∃ res, constLoop sh tslices vals (constTests tslices) = .ok res := by
       apply constLoop_ok_of
@@ -927,15 +906,16 @@ theorem simplifyK_ok (null : α) (sh : Shp) (wf : WF sh) (hsl : sh.hasSlice = tr
         have hd' : d = tslices := by simpa [repeatTests] using hd
         subst hd'
         have hbt : sh.hasTime = true := by simpa [basePresent] using hb
-        have hT2 := ht hbt
         have hm := hmiss tsamples (by simp [constTests]) (by simpa [basePresent] using hbt)
         have hS1 : sh.S ≠ 1 := by
           intro e; apply hm.1; rw [hpt, e]
         have hmt : mult sh tslices = sh.S := by simp [mult, hsl]
         rw [hmt, hlen]
-        refine ⟨by omega, ?_, Nat.mul_mod_right _ _⟩
-        have : sh.S * 2 ≤ sh.S * sh.T := Nat.mul_le_mul_left _ hT2
-        omega
+        by_cases hT1 : sh.T = 1
+        · exact Or.inl (by rw [hT1, Nat.mul_one])
+        · refine Or.inr ⟨by omega, ?_, Nat.mul_mod_right _ _⟩
+          have : sh.S * 2 ≤ sh.S * sh.T := Nat.mul_le_mul_left _ (by omega)
+          omega
       obtain ⟨r2, hr2⟩ := hrep
       rw [hr2]
       cases r2 with
@@ -943,13 +923,12 @@ theorem simplifyK_ok (null : α) (sh : Shp) (wf : WF sh) (hsl : sh.hasSlice = tr
       | none => exact ⟨_, rfl⟩
 
 theorem applySimplify_total (null : α) (sh : Shp) (wf : WF sh) (hsl : sh.hasSlice = true)
-    (ht : sh.hasTime = true → 2 ≤ sh.T) (hv : sh.hasVector = true → 2 ≤ sh.V)
     (ks : KeyState α) (hval : ValidK sh ks) : ∃ r, applySimplify null sh ks = .ok r := by
   cases ks with
   | none => exact ⟨none, rfl⟩
   | some pr =>
     obtain ⟨c, vals⟩ := pr
-    obtain ⟨o, ho⟩ := simplifyK_ok null sh wf hsl ht hv c vals hval.2
+    obtain ⟨o, ho⟩ := simplifyK_ok null sh wf hsl c vals hval.2
     simp only [applySimplify, ho]
     cases o <;> exact ⟨_, rfl⟩
 
@@ -966,7 +945,6 @@ theorem consistent_ht (sh : Shp) (hc : Consistent sh) : sh.hasTime = true → 2 
 
 /-- **`get_subset` along the slice axis cannot fail** on a valid key -/
 theorem subsetSliceK_ok (null : α) (sh : Shp) (hc : Consistent sh)
-    (hV2 : sh.hasVector = true → 2 ≤ sh.V)
     (ks : KeyState α) (hv : ValidK sh ks) (idx : Nat) (hidx : idx < sh.S) :
     ∃ p, subsetSliceK null sh ks idx = .ok p := by
   cases ks with
@@ -978,7 +956,7 @@ theorem subsetSliceK_ok (null : α) (sh : Shp) (hc : Consistent sh)
     · simp only [hps, if_true]
       obtain ⟨h1, h2, _⟩ := copySlice_valid sh hc.toWFnd hc.hsl c hps hv.1 vals hv.2 idx hidx
       apply applySimplify_total null (sliceSubsetShp sh) ⟨by simp [sliceSubsetShp], hc.hT, hc.hV⟩
-        hc.hsl (consistent_ht sh hc) hV2
+        hc.hsl
       exact ⟨h1, h2⟩
     · simp [hps]
 
@@ -1013,8 +991,7 @@ theorem subsetTimeK_ok (null : α) (sh : Shp) (hc : Consistent sh) (h45 : sh.nd 
         obtain ⟨r1, r2, r3, r4, r5, r6⟩ := hrs
         apply applySimplify_total null (timeSubsetShp sh)
           ⟨by rw [r1]; exact hc.hS, by rw [r2]; decide, by rw [r3]; exact hc.hV⟩
-          (by rw [r4]; exact hc.hsl) (by rw [r5]; intro h; cases h)
-          (by intro h; rw [r3]; exact hV2 (r6 h))
+          (by rw [r4]; exact hc.hsl)
         exact hval
       · simp [hsimp]
 
@@ -1040,7 +1017,7 @@ theorem subsetVecK_ok (null : α) (sh : Shp) (hc : Consistent sh) (h5 : sh.nd = 
           unfold vecSubsetShp; split <;> rfl
         apply applySimplify_total null (vecSubsetShp sh)
           ⟨by rw [rS]; exact hc.hS, by rw [rT]; exact hc.hT, by rw [rV]; decide⟩
-          rsl (by rw [rht, rT]; exact consistent_ht sh hc) (by rw [rhv]; intro h; cases h)
+          rsl
         exact hval
       · simp [hsimp]
 
@@ -1052,20 +1029,19 @@ variable {α : Type} [DecidableEq α]
 /-- **C05 without premises (slice axis):** splitting a canonical key and merging the pieces back
     both succeed and reproduce the key -/
 theorem split_merge_slice_total (null : α) (sh : Shp) (hc : Consistent sh) (hS2 : 2 ≤ sh.S)
-    (hV2 : sh.hasVector = true → 2 ≤ sh.V)
     (ks : KeyState α) (hv : ValidK sh ks) (hcan : Canonical null sh ks) :
     ∃ (pieces : Nat → KeyState α) (r : KeyState α),
       (∀ i, i < sh.S → subsetSliceK null sh ks i = .ok (pieces i)) ∧
       mergeSliceK null sh ((List.range sh.S).map pieces) = .ok r ∧ r = ks := by
   let pieces := fun i => okOr (none : KeyState α) (subsetSliceK null sh ks i)
   have hp : ∀ i, i < sh.S → subsetSliceK null sh ks i = .ok (pieces i) := fun i hi =>
-    eq_ok_okOr _ _ (subsetSliceK_ok null sh hc hV2 ks hv i hi)
+    eq_ok_okOr _ _ (subsetSliceK_ok null sh hc ks hv i hi)
   have hpv : ∀ i, i < sh.S → ValidK { sh with S := 1 } (pieces i) := fun i hi =>
     (subsetSlice_spec null sh hc ks hv i hi (pieces i) (hp i hi)).1
   have hm : ∃ r, mergeSliceK null sh ((List.range sh.S).map pieces) = .ok r := by
     obtain ⟨a, rest, hl, _⟩ := range_map_cons sh.S (by omega) pieces
     rw [hl]
-    apply mergeSliceK_ok null sh hc hV2
+    apply mergeSliceK_ok null sh hc
     intro b hb
     rw [← hl] at hb
     obtain ⟨i, hi, rfl⟩ := List.mem_map.mp hb
@@ -1101,7 +1077,6 @@ theorem split_merge_time_total (null : α) (sh : Shp) (hc : Consistent sh) (h4 :
     apply mergeTimeK_ok null sh (timeSubsetShp sh) hc.hS hc.hsl h4 hV1 hvec
       (by rw [hrs]) (by rw [hrs]) (by rw [hrs]) (by rw [hrs]; exact hV1) (by rw [hrs]; exact hc.hsl)
       a rest
-    · intro h; rw [h] at hlen; simp at hlen; omega
     · intro b hb
       rw [← hl] at hb
       obtain ⟨i, hi, rfl⟩ := List.mem_map.mp hb
@@ -1127,7 +1102,6 @@ theorem split_merge_vec_total (null : α) (sh : Shp) (hc : Consistent sh) (h5 : 
     rw [hl]
     apply mergeVecK_ok null sh (vecSubsetShp sh) hc.hS hc.hT hc.hsl h5 (hc.hvec.mpr h5)
       (fun h => (hc.htime.mp h).2) rsl rS rT rV rnd a rest
-    · intro h; rw [h] at hlen; simp at hlen; omega
     · intro b hb
       rw [← hl] at hb
       obtain ⟨i, hi, rfl⟩ := List.mem_map.mp hb
